@@ -459,6 +459,85 @@ func c14FuncVariants(r *ev.Recorder) {
 	}
 }
 
+// c14SharedSlices: one caller-owned argument slice (with a nil in the middle) used for the
+// variadic form, then for the ...Func form, then for the variadic form again.
+func c14SharedSlices(r *ev.Recorder) {
+	for i := 0; i < stmtType.NumMethod(); i++ {
+		m := stmtType.Method(i)
+		if !m.Type.IsVariadic() || m.Type.NumIn() != 2 || m.Type.In(1).Elem() != codeType {
+			continue
+		}
+		mk := func() []jen.Code { return []jen.Code{jen.Id("a"), nil, jen.Id("b"), jen.Id("c")} }
+		want := jh.Raw(func() *jen.Statement {
+			s := &jen.Statement{}
+			call(reflect.ValueOf(s).MethodByName(m.Name), []reflect.Value{reflect.ValueOf(mk())}, true)
+			return s
+		}())
+		args := mk()
+		var outs []jh.Outcome
+		for k := 0; k < 2; k++ {
+			s := &jen.Statement{}
+			call(reflect.ValueOf(s).MethodByName(m.Name), []reflect.Value{reflect.ValueOf(args)}, true)
+			outs = append(outs, jh.Raw(s))
+			if fm, ok := stmtType.MethodByName(m.Name + "Func"); ok && fm.Type.In(1) == groupFunc {
+				s2 := &jen.Statement{}
+				call(reflect.ValueOf(s2).MethodByName(fm.Name), []reflect.Value{reflect.ValueOf(func(g *jen.Group) {
+					for _, it := range args {
+						g.Add(it)
+					}
+				})}, false)
+				outs = append(outs, jh.Raw(s2))
+			}
+		}
+		r.Eval(int64(len(outs)))
+		desc := m.Name + "(args...) / " + m.Name + "Func built repeatedly from one caller-owned slice [a, nil, b, c]"
+		r.Distinct(desc)
+		for k, o := range outs {
+			if o.Key() != want.Key() {
+				r.Violate(ev.Violation{Signature: "c14:shared-slice:" + m.Name, What: fmt.Sprintf("%s: build #%d renders %q, want %q", desc, k+1, o, want), Case: ev.JSON(c14Case{Kind: "sharedslice", Name: m.Name, Desc: desc})})
+				break
+			}
+		}
+	}
+}
+
+// c14Hoisting: a ...Func construct called as a Group method whose callback also emits into the
+// enclosing group must render like g.Add(XFunc(f)) - the callback runs before the new statement
+// is appended.
+func c14Hoisting(r *ev.Recorder) {
+	for i := 0; i < groupType.NumMethod(); i++ {
+		m := groupType.Method(i)
+		if !strings.HasSuffix(m.Name, "Func") || m.Type.NumIn() != 2 || m.Type.In(1) != groupFunc {
+			continue
+		}
+		fn, ok := apiFuncs[m.Name]
+		if !ok {
+			continue
+		}
+		build := func(viaGroup bool) jh.Outcome {
+			return jh.Raw(jen.CustomFunc(c14GroupOpts, func(g *jen.Group) {
+				cb := func(inner *jen.Group) {
+					g.Id("hoisted")
+					inner.Id("x")
+				}
+				if viaGroup {
+					call(reflect.ValueOf(g).MethodByName(m.Name), []reflect.Value{reflect.ValueOf(cb)}, false)
+				} else {
+					rv, _ := call(reflect.ValueOf(fn), []reflect.Value{reflect.ValueOf(cb)}, false)
+					g.Add(rv.Interface().(*jen.Statement))
+				}
+			}))
+		}
+		a, b := build(true), build(false)
+		r.Eval(2)
+		desc := "g." + m.Name + "(f) vs g.Add(" + m.Name + "(f)) where f also emits into g"
+		r.Distinct(desc)
+		if a.Key() != b.Key() {
+			r.Violate(ev.Violation{Signature: "c14:hoisting:" + m.Name, What: fmt.Sprintf("%s: %q vs %q", desc, a, b), Case: ev.JSON(c14Case{Kind: "hoisting", Name: m.Name, Desc: desc})})
+		}
+	}
+}
+
 type c14Case struct {
 	Kind  string `json:"kind"`
 	Name  string `json:"name"`
@@ -500,6 +579,8 @@ func runC14(r *ev.Recorder) {
 		}
 	}
 	c14FuncVariants(r)
+	c14SharedSlices(r)
+	c14Hoisting(r)
 	// DictFunc
 	n := 0
 	d := jen.DictFunc(func(d jen.Dict) { n++; d[jen.Lit(1)] = jen.Lit(2) })
